@@ -506,7 +506,7 @@ class EvalMixin(InterpBase):
                 try:
                     b0 = truth(self.ev(node.args[1], fr))
                 except Unsupported as e:
-                    if "has no member" in str(e) or "has no field" in str(e) or "no attribute" in str(e):
+                    if "has no member" in str(e) or "has no field" in str(e) or "no attribute" in str(e) or str(e).startswith("attribute "):
                         b0 = False      # the consequent speaks about a shape the value does not have: false
                     else:
                         raise
